@@ -628,6 +628,7 @@ Proof.
     destruct (rstmts_ok l s Hc (fun _ => H0) Ha) as [E W]. rewrite E. repeat split; auto.
     unfold brk_code_ok. destruct (outc _); auto; discriminate.
   - (* subshell *)
+    destruct (existsb (fun t => match t with Stmt n _ => n end) l); [discriminate Ha|].
     set (s2 := subshell s).
     assert (Hc2 : clean s2) by (destruct Hc as (?&?&?&?&?&?&?&?&?&?); unfold clean, s2; cbn; tauto).
     pose proof (rstmts_ok l s2 Hc2 (fun _ => H0)) as H2.
